@@ -28,10 +28,15 @@ impl s3s::auth::S3Auth for RecAuth {
             let c = s3s::S3ErrorCode::from_bytes(code.as_bytes()).unwrap_or(s3s::S3ErrorCode::AccessDenied);
             return Err(s3s::S3Error::with_message(c, "denied by provider"));
         }
-        match self.keys.get(access_key) {
+        // the lookup itself is done by the repository's own provider (`SimpleAuth`), the recorder only observes it
+        let mut simple = s3s::auth::SimpleAuth::new();
+        for (k, v) in self.keys.iter() {
+            simple.register(k.clone(), s3s::auth::SecretKey::from(v.clone()));
+        }
+        match s3s::auth::S3Auth::get_secret_key(&simple, access_key).await.ok() {
             Some(s) => {
                 self.log.lock().unwrap().push(format!("auth.get_secret_key:{access_key}:ok"));
-                Ok(s3s::auth::SecretKey::from(s.clone()))
+                Ok(s)
             }
             None => {
                 self.log.lock().unwrap().push(format!("auth.get_secret_key:{access_key}:unknown"));
@@ -150,8 +155,14 @@ impl Outcome {
 }
 
 pub fn run_req(env: &Env, req: &Req, steps: Option<Vec<Step>>, http2: bool) -> Result<Outcome, String> {
+    run_req_hint(env, req, steps, http2, true)
+}
+
+/// `with_size_hint == false`: the transport does not know the body's length in advance (chunked transfer coding,
+/// HTTP/2 without content-length, a body-wrapping middleware): the body announces nothing about its size
+pub fn run_req_hint(env: &Env, req: &Req, steps: Option<Vec<Step>>, http2: bool, with_size_hint: bool) -> Result<Outcome, String> {
     let body = match steps {
-        Some(s) => s3s::Body::http_body(FrameBody::new(s, true)),
+        Some(s) => s3s::Body::http_body(FrameBody::new(s, with_size_hint)),
         None if req.body.is_empty() => s3s::Body::empty(),
         None => s3s::Body::http_body(FrameBody::single(req.body.clone())),
     };
